@@ -237,6 +237,8 @@ def templates():
             for align in (False, True):
                 for sort in ((False, True) if align else (False,)):
                     cost = {1: 0.2, 2: 1, 3: 8}[n] * (1 if nin < 3 else 6) * (3 if align else 1)
+                    if nin == 3 and n == 2 and align:
+                        cost = 150
                     tier = 'quick' if cost <= 10 else 'thorough'
                     add('stack-%din-n%d-%s-%s' % (nin, n, 'align' if align else 'noalign', sort), 'stack_case', tier, cost,
                         specs=[[[X], [n]]] * nin, align=align, sort=sort, keys='int' if n != 2 else 'rank')
@@ -269,8 +271,11 @@ def templates():
                 add('concat-2d-ax%d-%s-%s' % (ax, by, align), 'concat_case', cost=3 if not align else 6,
                     specs=[[[X, Y], sizes_a], [[X, Y], sizes_b]], axis=ax, by=by, align=align)
         for sort in (False, True):
-            add('concat-2d-3in-%s-%s' % (align, sort), 'concat_case', 'quick' if not sort or align else 'thorough', cost=10,
+            add('concat-2d-3in-%s-%s' % (align, sort), 'concat_case', 'quick' if not align else 'thorough', cost=10 if not align else 150,
                 specs=[[[X, Y], [1, 2]], [[X, Y], [2, 2]], [[X, Y], [1, 2]]], axis=0, align=align, sort=sort and align)
+            if align:
+                add('concat-2d-3in-small-%s' % sort, 'concat_case', cost=8, specs=[[[X, Y], [1, 2]], [[X, Y], [2, 1]], [[X, Y], [1, 2]]], axis=0, align=True, sort=sort)
+                add('stack-3in-small-%s' % sort, 'stack_case', cost=8, specs=[[[Y], [2]], [[Y], [1]], [[Y], [2]]], align=True, sort=sort, keys='int')
         add('concat-2d-transposed-%s' % align, 'concat_case', cost=4, specs=[[[X, Y], [2, 2]], [[Y, X], [2, 2]]], axis=0, align=align, share=[X, Y])
         add('concat-3d-%s' % align, 'concat_case', cost=8, specs=[[['x', 'y', 'z'], [1, 2, 2]], [['x', 'y', 'z'], [2, 2, 2]]], axis=0, align=align, share=['z'])
         add('concat-3d-mid-%s' % align, 'concat_case', cost=8, specs=[[['x', 'y', 'z'], [2, 1, 2]], [['x', 'y', 'z'], [2, 2, 2]]], axis=1, by='pos', align=align, share=['z'])
